@@ -142,6 +142,8 @@ def make_pipeline(spec, module='ref.family_gen'):
             meta['task_group'] = t['group']
         if t.get('abstract'):
             meta['abstract'] = True
+        if t.get('abstract_false'):
+            meta['abstract'] = False          # explicitly concrete (e.g. a subclass of an abstract task)
         if t.get('meta_name'):
             meta['name'] = t['meta_name']
         data = t.get('data', 'json')
@@ -249,6 +251,7 @@ def run({args}):
     _RUNLOG.append((self.fullname, id(self)))
     _nth = sum(1 for _r in _RUNLOG if _r[0] == self.fullname)
     self.save_to_run_info({{'nth_run_of_task': _nth}})
+    self.save_to_run_info({{'shape': (2, _nth), 'tags': {{'a', 'b'}}}})
     self.logger.info('step %d of %s' % (_nth, self.fullname))
     params = {getp}
     f = _FAIL.get(self.slugname)
@@ -351,7 +354,7 @@ CHAIN3 = [
 
 DIAMOND = [
     P('Src', params=[par('x'), par('verbose', default=False, ignore=True)]),
-    P('Left', group='g', params=[par('l', default='L', dpdv=True)], inputs=[inp('src', 'name')]),
+    P('Left', group='g', params=[par('l', default='L', dpdv=True), par('lv', default=5, nic='left_level')], inputs=[inp('src', 'name')]),
     P('Right', group='g:h', params=[par('r', nic='right_value')], inputs=[inp('Src')]),
     P('Sink', inputs=[inp('g:left', 'name'), inp('Right')], params=[par('s', default=None)]),
 ]
